@@ -1,5 +1,7 @@
 """Expected normalised sources (docstrings, annotations and logging calls removed, re-printed by ast.unparse) of the
-functions whose control flow Model/RewardGraph.lean and Model/Reward.lean transcribe by hand."""
+functions whose control flow Model/RewardGraph.lean, Model/Reward.lean and Model/RewardState.lean transcribe by hand.
+(The reward components' `calculate` methods are NOT here: they are translated statement by statement by reward_calc.py and
+proved equivalent to their models for all inputs.)"""
 
 SHAPES = {
     'topological_sort': '''def topological_sort(graph):
@@ -71,97 +73,18 @@ SHAPES = {
     if graph_has_cycle(graph):
         raise RuntimeError(('Detected cycle in agent reward sharing. Check the agent reward function ', 'configuration: reward sharing can only go one way.'))
     self._reward_calculation_order = topological_sort(graph)''',
-    'green': '''def calculate(self, state, last_action_response):
-    request_attempted = last_action_response.request == ['network', 'node', self.config.node_hostname, 'application', 'database-client', 'execute']
-    if request_attempted:
-        last_action_response.reward_info = {'connection_attempt_status': last_action_response.response.status}
-        self.reward = 1.0 if last_action_response.response.status == 'success' else -1.0
-    elif not self.config.sticky:
-        last_action_response.reward_info = {'connection_attempt_status': 'n/a'}
-        self.reward = 0.0
-    else:
-        last_action_response.reward_info = {'connection_attempt_status': 'n/a'}
-        pass
-    return self.reward''',
-    'w404': '''def calculate(self, state, last_action_response):
-    self.location_in_state = ['network', 'nodes', self.config.node_hostname, 'services', self.config.service_name]
-    web_service_state = access_from_nested_dict(state, self.location_in_state)
-    if web_service_state is NOT_PRESENT_IN_STATE:
-        return 0.0
-    codes = web_service_state.get('response_codes_this_timestep')
-    if codes:
-
-        def status2rew(status):
-            return 1.0 if status == 200 else -1.0 if status == 404 else 0.0
-        self.reward = sum(map(status2rew, codes)) / len(codes)
-    elif not self.config.sticky:
-        self.reward = 0.0
-    else:
-        pass
-    return self.reward''',
-    'shared': '''def calculate(self, state, last_action_response):
-    return self.callback(self.config.agent_name)''',
-    'ap': '''def calculate(self, state, last_action_response):
-    if last_action_response.action == 'do-nothing':
-        return self.config.do_nothing_penalty
-    else:
-        return self.config.action_penalty''',
-    'dfi': '''def calculate(self, state, last_action_response):
-    self.location_in_state = ['network', 'nodes', self.config.node_hostname, 'file_system', 'folders', self.config.folder_name, 'files', self.config.file_name]
-    database_file_state = access_from_nested_dict(state, self.location_in_state)
-    if database_file_state is NOT_PRESENT_IN_STATE:
-        return 0.0
-    health_status = database_file_state['health_status']
-    if health_status == 2:
-        return -1
-    elif health_status == 1:
-        return 1
-    else:
-        return 0''',
+    'access_from_nested_dict': '''def access_from_nested_dict(dictionary, keys):
+    if keys is None:
+        return NOT_PRESENT_IN_STATE
+    key_list = [*keys]
+    if len(key_list) == 0:
+        return dictionary
+    k = key_list.pop(0)
+    if k not in dictionary:
+        return NOT_PRESENT_IN_STATE
+    return access_from_nested_dict(dictionary[k], key_list)''',
+    'update_reward': '''def update_reward(self, state):
+    return self.reward_function.update(state=state, last_action_response=self.history[-1])''',
+    'save_reward_to_history': '''def save_reward_to_history(self):
+    self.history[-1].reward = self.reward_function.current_reward''',
 }
-
-WEBPAGE_FIXED = '''def calculate(self, state, last_action_response):
-    self.location_in_state = ['network', 'nodes', self.config.node_hostname, 'applications', 'web-browser']
-    web_browser_state = access_from_nested_dict(state, self.location_in_state)
-    if web_browser_state is NOT_PRESENT_IN_STATE:
-        self.reward = 0.0
-    request_attempted = last_action_response.request == ['network', 'node', self.config.node_hostname, 'application', 'web-browser', 'execute']
-    if not request_attempted:
-        if not self.config.sticky:
-            self.reward = 0.0
-        return self.reward
-    if last_action_response.response.status != 'success':
-        self.reward = -1.0
-    elif web_browser_state is NOT_PRESENT_IN_STATE or not web_browser_state['history']:
-        self.reward = 0.0
-    else:
-        outcome = web_browser_state['history'][-1]['outcome']
-        if outcome == 'PENDING':
-            self.reward = 0.0
-        elif outcome == 200:
-            self.reward = 1.0
-        else:
-            self.reward = -1.0
-    return self.reward'''
-
-WEBPAGE_AS_WRITTEN = '''def calculate(self, state, last_action_response):
-    self.location_in_state = ['network', 'nodes', self.config.node_hostname, 'applications', 'web-browser']
-    web_browser_state = access_from_nested_dict(state, self.location_in_state)
-    if web_browser_state is NOT_PRESENT_IN_STATE:
-        self.reward = 0.0
-    request_attempted = last_action_response.request == ['network', 'node', self.config.node_hostname, 'application', 'web-browser', 'execute']
-    if not request_attempted and self.config.sticky:
-        return self.reward
-    if last_action_response.response.status != 'success':
-        self.reward = -1.0
-    elif web_browser_state is NOT_PRESENT_IN_STATE or not web_browser_state['history']:
-        self.reward = 0.0
-    else:
-        outcome = web_browser_state['history'][-1]['outcome']
-        if outcome == 'PENDING':
-            self.reward = 0.0
-        elif outcome == 200:
-            self.reward = 1.0
-        else:
-            self.reward = -1.0
-    return self.reward'''
